@@ -284,3 +284,12 @@ Proof.
   intros l f ir H Hin. unfold fields_wf in H. rewrite forallb_forall in H.
   apply field_wfb_ok. apply (H (f, ir) Hin).
 Qed.
+
+
+(* every generated type name used by an accessor / method signature denotes the schema's type *)
+Theorem typerefs_match_sound : forall l t ids x, typerefs_match l = true -> In (t, ids) l -> In x ids -> x = t.
+Proof.
+  intros l t ids x H Hin Hx. unfold typerefs_match in H. rewrite forallb_forall in H.
+  specialize (H (t, ids) Hin). cbn [fst snd] in H. destruct ids as [|a r]; [contradiction|].
+  rewrite forallb_forall in H. specialize (H x Hx). apply Z.eqb_eq in H. congruence.
+Qed.
